@@ -9,4 +9,5 @@ SPECIFICATION Spec
 INVARIANT Defined
 INVARIANT ShapeMatches
 INVARIANT Handed
+INVARIANT AlgoRefines
 CHECK_DEADLOCK FALSE
